@@ -34,16 +34,18 @@ fn c08_park() {
     let old = set_view(&set);
     let a = old.active.unwrap();
     let oa = old.th[a];
-    kani::assume(matches!(oa.st, StView::Runnable { .. }));
+    // the caller is executing: runnable, or still marked Yield after being re-scheduled
+    kani::assume(matches!(oa.st, StView::Runnable { .. }) || oa.st == StView::Yield);
     let mut ex = exec_with(ManuallyDrop::into_inner(set), 4);
     with_ctx(&mut ex, || park(Location::disabled()));
     let new = set_view(&ex.threads);
     let na = new.th[a];
     if has_token(&oa) {
         oblige!("C08.park.token_present_returns_immediately_consuming_it",
-            na.st == (StView::Runnable { unparked: false }) && schedule_calls() == 0 && switches() == 0 && th_view_eq_except_state(&oa, &na));
+            !has_token(&na) && (na.st == oa.st || na.st == (StView::Runnable { unparked: false }))
+            && schedule_calls() == 0 && switches() == 0 && th_view_eq_except_state(&oa, &na));
     } else {
-        oblige!("C08.park.no_token_blocks_with_no_pending_operation", na.st == StView::Blocked && na.op.is_none());
+        oblige!("C08.park.no_token_blocks_with_no_pending_operation", na.st == StView::Blocked && na.op.is_none() && !na.pending_unpark);
         oblige!("C08.park.schedules_exactly_once", schedule_calls() == 1 && switches() <= 1);
         let saw = schedule_saw().unwrap();
         let sa = saw.th[a];
@@ -78,6 +80,7 @@ fn c18_yield_now() {
     with_ctx(&mut ex, || yield_now());
     let new = set_view(&ex.threads);
     let na = new.th[a];
+    oblige!("C08.token_kept.yield_now", has_token(&na) == has_token(&oa));
     oblige!("C18.yield_now.marks_yield_and_clears_operation", na.st == StView::Yield && na.op.is_none()
         && na.yield_count == oa.yield_count + 1 && na.last_yield == Some(crate::rt::vv::verif_kani::get(&oa.causality, a)));
     oblige!("C18.yield_now.clocks_untouched", vv_eq(&na.causality, &oa.causality) && vv_eq(&na.dpor_vv, &oa.dpor_vv) && vv_eq(&na.released, &oa.released));
